@@ -1749,7 +1749,7 @@ fn run_shard(ctx: &Ctx, seed: u64, shard: usize, per_shard: usize, only: Option<
 pub fn run(ctx: &Ctx) -> Evidence {
     let mut ev = ctx.evidence("C14", "exploration");
     ev.max_samples = 8;
-    let total = ctx.tier.pick(2_000_000usize, 10_000_000usize);
+    let total = ctx.tier.pick(2_000_000usize, 30_000_000usize);
     let shards = ctx.tier.pick(128usize, 512usize);
     let per_shard = total.div_ceil(shards);
     ev.rule = format!(
